@@ -56,6 +56,10 @@ def _lib(ctx, name, p):
         return lambda x, y: [y[1], -(a * a) * y[0]]
     if name == 'ode_rat':      # y' = -y^2
         return lambda x, y: -y * y
+    if name == 'ode_poly':     # y' = 3x^2 + 2a x + b   (solution: polynomial)
+        return lambda x, y: 3 * x * x + 2 * a * x + b
+    if name == 'ode_tri':      # triangular linear system y0' = -a y0 + b y1, y1' = -(a+1) y1
+        return lambda x, y: [-a * y[0] + b * y[1], -(a + 1) * y[1]]
     if name == 'lap_exp':      # 1/(p+a)
         return lambda s: 1 / (s + a)
     if name == 'lap_sin':      # 1/(p^2+1)
